@@ -80,6 +80,18 @@ Record pcase := {
 Definition opt_eq_list (a : option (list (option nat))) (b : list (option nat)) : bool :=
   match a with Some l => onat_eqb l b | None => false end.
 
+(* C07 on the observation alone: an exception is routed in pipeline order FROM THE HEAD, so the first
+   exception visit of a trace is at the first handler (from the head) that handles exceptions *)
+Fixpoint first_exc_pos (hs : list handler) (i : nat) : option nat :=
+  match hs with [] => None | h :: r => if caps h KException then Some i else first_exc_pos r (S i) end.
+Fixpoint first_exc_visit (t : list oev) : option nat :=
+  match t with [] => None | OVisit p _ KException :: _ => Some p | _ :: r => first_exc_visit r end.
+Definition exc_from_head (hs : list handler) (t : list oev) : bool :=
+  match first_exc_visit t with
+  | None => true
+  | Some p => match first_exc_pos (hs ++ [tail_h]) 1 with Some q => Nat.eqb p q | None => false end
+  end.
+
 Definition check_pcase (c : pcase) : nat * option nat * option nat :=
   let '(p, panics) := run_skip (new_pipe nat) (pc_ops c) in
   let s_ok := andb (Z.eqb (Z.of_nat (size nat p)) (pc_size c))
@@ -102,7 +114,7 @@ Definition check_pcase (c : pcase) : nat * option nat * option nat :=
                  end in
   (pc_id c,
    if andb s_ok (andb p_ok q_ok) then (if t_ok then None else Some 1) else Some 0,
-   if spec_ok then None else Some 0).
+   if spec_ok then (if exc_from_head hs (pc_trace c) then None else Some 7) else Some 0).
 
 Definition pbad (r : nat * option nat * option nat) : bool :=
   match r with (_, None, None) => false | _ => true end.
